@@ -636,6 +636,220 @@ prewire_cfg(sim_config *cfg, Params *p)
 }
 SCENARIO(c04_prewire, "C04", prewire_cfg, prewire_run);
 
+// ---------------------------------------------------------------------------
+// A''. requests that die before they reach the wire (send timed out with no
+// peer, cancelled or superseded while queued behind a stalled connection,
+// receive timed out) leave nothing behind: an adversary that guesses their
+// ids (ids are sequential) is ignored, and the next request of the same
+// context gets its own reply only.
+static void
+dead_run(Params *p)
+{
+	nng_socket req, rep;
+	MUST(nng_req0_open(&req));
+	MUST(nng_rep0_open_raw(&rep));
+	MUST(nng_socket_set_ms(rep, NNG_OPT_RECVTIMEO, 300));
+	MUST(nng_socket_set_ms(rep, NNG_OPT_SENDTIMEO, 1000));
+	static const nng_duration resend[] = { NNG_DURATION_INFINITE, 60000, 40 };
+	MUST(nng_socket_set_ms(req, NNG_OPT_REQ_RESENDTIME, resend[W(0, 2)]));
+	MUST(nng_socket_set_ms(req, NNG_OPT_REQ_RESENDTICK, 10));
+	int         tr   = (int) p->draw("tr", 0, 2) == 0 ? TR_TCP : (int) W(0, 2);
+	const int   port = 5000 + 57;
+	std::string url  = h_url(tr, 57);
+	const int   nctx = 1 + (int) W(0, 2); // index 0 = the socket itself
+	nng_ctx     c[3];
+	for (int i = 1; i < nctx; i++)
+		MUST(nng_ctx_open(&c[i], req));
+	auto mkreq = [](int ctx, uint32_t ser, size_t pad) {
+		nng_msg *m = NULL;
+		MUST(nng_msg_alloc(&m, 0));
+		uint8_t b[6] = { 'Q', (uint8_t) ctx, 0, 0, 0, 0 };
+		put32(b + 2, ser);
+		nng_msg_append(m, b, 6);
+		std::string fill(pad, 'x');
+		nng_msg_append(m, fill.data(), fill.size());
+		return m;
+	};
+	auto submit = [&](UAio &u, int ci, uint32_t ser, size_t pad, nng_duration to) {
+		nng_aio_set_msg(u.aio, mkreq(ci, ser, pad));
+		nng_aio_set_timeout(u.aio, to);
+		u.arm("dead_send");
+		if (ci == 0)
+			nng_socket_send(req, u.aio);
+		else
+			nng_ctx_send(c[ci], u.aio);
+	};
+	auto reap = [](UAio &u) {
+		u.wait(0);
+		if (u.result != 0) {
+			nng_msg_free(nng_aio_get_msg(u.aio));
+			nng_aio_set_msg(u.aio, NULL);
+		}
+		return u.result;
+	};
+	AWorld w;
+	w.rep         = rep;
+	w.adv_serial  = 0;
+	w.send_failed = 0;
+	uint32_t ser = 1;
+	int      dead = 0;
+	// (a) no peer at all: the send can only time out
+	if (W(0, 1) == 0) {
+		int  ci = (int) W(0, nctx - 1);
+		UAio u;
+		submit(u, ci, ser++, 0, (nng_duration) W(1, 30));
+		int rv = reap(u);
+		sim_event("dead: ctx%d send without peer -> %d", ci, rv);
+		if (rv == 0)
+			VIOL("send_without_peer_ok", "a request was accepted for sending although no peer exists");
+		dead++;
+	}
+	MUST(nng_listen(rep, url.c_str(), NULL, 0));
+	MUST(nng_dial(req, url.c_str(), NULL, 0));
+	sim_quiesce(10000000);
+	int rounds = 1 + (int) W(0, 2);
+	for (int round = 0; round < rounds; round++) {
+		int  ci      = (int) W(0, nctx - 1);
+		long how     = W(0, 4); // 0 none, 1 cancel queued send, 2 send timeout, 3 superseded, 4 receive timed out
+		bool stalled = false;
+		if (how >= 1 && how <= 3 && tr == TR_TCP && nctx > 1) {
+			// occupy the only connection so that the next send stays queued in the socket
+			simnet_stall_port((uint16_t) port, 1, 1);
+			stalled = true;
+			int  blocker = ci == 0 ? 1 : 0;
+			UAio b;
+			submit(b, blocker, ser++, (size_t) W(1500, 6000), 3000);
+			sim_quiesce(3000000);
+			UAio q;
+			submit(q, ci, ser++, 0, how == 2 ? (nng_duration) W(1, 20) : 3000);
+			sim_quiesce(2000000);
+			bool was_queued = !q.poll();
+			if (how == 1) {
+				nng_aio_cancel(q.aio);
+			} else if (how == 3) {
+				UAio q2;
+				submit(q2, ci, ser++, 0, 3000);
+				sim_quiesce(2000000);
+				nng_aio_cancel(q2.aio);
+				reap(q2);
+				dead++;
+			}
+			int rv = reap(q);
+			sim_event("dead: round %d ctx%d how=%ld queued=%d -> %d", round, ci, how, (int) was_queued, rv);
+			if (was_queued && rv != 0) {
+				dead++;
+				sim_probe("c04_dead_send_while_queued");
+			}
+			simnet_stall_port((uint16_t) port, 1, 0);
+			nng_aio_cancel(b.aio);
+			reap(b);
+		} else if (how == 4) {
+			UAio u;
+			submit(u, ci, ser++, 0, 3000);
+			if (reap(u) == 0) {
+				UAio r;
+				nng_aio_set_timeout(r.aio, (nng_duration) W(1, 10));
+				r.arm("dead_recv");
+				if (ci == 0)
+					nng_socket_recv(req, r.aio);
+				else
+					nng_ctx_recv(c[ci], r.aio);
+				r.wait(0);
+				if (r.result == 0)
+					VIOL("reply_without_reply", "ctx%d received a reply nobody sent", ci);
+				dead++;
+			}
+		}
+		(void) stalled;
+		// drain whatever reached the adversary meanwhile (never answered)
+		for (;;) {
+			nng_msg *m = NULL;
+			if (nng_recvmsg(rep, &m, NNG_FLAG_NONBLOCK) != 0)
+				break;
+			nng_msg_free(m);
+		}
+		sim_quiesce(3000000);
+		for (;;) {
+			nng_msg *m = NULL;
+			if (nng_recvmsg(rep, &m, NNG_FLAG_NONBLOCK) != 0)
+				break;
+			nng_msg_free(m);
+		}
+		// the live request of the same context
+		uint32_t live = ser++;
+		UAio     u;
+		submit(u, ci, live, 0, 3000);
+		if (reap(u) != 0)
+			VIOL("request_send_failed", "ctx%d live send returned %d", ci, u.result);
+		uint32_t pipe = 0, id = 0;
+		bool     got = false;
+		for (int k = 0; k < 8 && !got; k++) {
+			nng_msg *m = NULL;
+			if (nng_recvmsg(rep, &m, 0) != 0)
+				break;
+			const uint8_t *h = (const uint8_t *) nng_msg_header(m);
+			const uint8_t *b = (const uint8_t *) nng_msg_body(m);
+			if (nng_msg_header_len(m) == 8 && nng_msg_len(m) >= 6 && get32(b + 2) == live) {
+				pipe = get32(h);
+				id   = get32(h + 4);
+				got  = true;
+			}
+			nng_msg_free(m);
+		}
+		if (!got)
+			VIOL("request_lost", "the live request #%u of ctx%d never reached the connected peer", live, ci);
+		// guesses at the ids of everything that died before it (ids are sequential)
+		int ng = (int) W(1, 6);
+		for (int k = 1; k <= ng; k++)
+			adv_reply(&w, pipe, id - (uint32_t) k, 'S', NULL, 0);
+		bool correct = W(0, 3) != 0;
+		if (correct) {
+			uint8_t echo[6] = { 'Q', (uint8_t) ci, 0, 0, 0, 0 };
+			put32(echo + 2, live);
+			adv_reply(&w, pipe, id, 'C', echo, 6);
+		}
+		UAio r;
+		nng_aio_set_timeout(r.aio, correct ? 3000 : 40);
+		r.arm("live_recv");
+		if (ci == 0)
+			nng_socket_recv(req, r.aio);
+		else
+			nng_ctx_recv(c[ci], r.aio);
+		r.wait(0);
+		if (r.result == 0) {
+			nng_msg       *m = nng_aio_get_msg(r.aio);
+			const uint8_t *b = (const uint8_t *) nng_msg_body(m);
+			char           kind = nng_msg_len(m) >= 10 ? (char) b[1] : '?';
+			uint32_t       used = nng_msg_len(m) >= 10 ? get32(b + 2) : 0;
+			nng_msg_free(m);
+			if (kind != 'C' || used != id)
+				VIOL("reply_misrouted",
+				    "ctx%d: reply addressed to id %08x (kind %c: the id of a request that was cancelled, timed "
+				    "out or superseded) was delivered to the request with id %08x",
+				    ci, used, kind, id);
+			if (!correct)
+				VIOL("reply_without_reply", "ctx%d received a reply although none was sent to its request", ci);
+		} else if (correct && w.send_failed == 0) {
+			VIOL("reply_not_delivered", "ctx%d: the correct reply was sent but receive returned %d", ci, r.result);
+		}
+		if (dead > 0)
+			sim_stat("nontrivial", 1);
+	}
+	for (int i = 1; i < nctx; i++)
+		MUST(nng_ctx_close(c[i]));
+	MUST(nng_socket_close(req));
+	MUST(nng_socket_close(rep));
+}
+static void
+dead_cfg(sim_config *cfg, Params *p)
+{
+	(void) p;
+	cfg->sndbuf_min = 64;
+	cfg->sndbuf_max = 256;
+	cfg->stall_p    = 0; // the scenario's "must succeed" steps use plain timeouts
+}
+SCENARIO(c04_dead, "C04", dead_cfg, dead_run);
+
 // ===========================================================================
 // B. cooked REP (socket + contexts) served to several raw requesters.
 // request: header = backtrace words (last has the request bit), body 'Q' peer(1) serial(4)
